@@ -59,7 +59,7 @@ func init() {
 	prop("C11", []string{"T-LITFMT", "P-LITCTOR", "W-CALLBACK", "W-PANICS"},
 		"The literal type switch covers exactly the 17 documented types; each is formatted by a verb of the right class — bare only for the default type of its constant kind (bool, string, int, float64, complex128), all other numeric types wrapped in a conversion; the argument is the token's content and the constructor stored its parameter (or the callback's result) unmodified; the result reaches the writer unmodified, except that a float64 gets \".0\" exactly when its text has neither '.' nor 'e'; unsupported types panic (documented).",
 		"that fmt prints a shortest round-tripping decimal for every value (a property of strconv over 2^64 values)")
-	prop("C12", []string{"T-LITFMT", "P-LITCTOR", "T-TOKCONTENT"},
+	prop("C12", []string{"T-LITFMT", "P-LITCTOR", "T-TOKCONTENT", "P-GROUPRENDER@every path decides whether the block follows"},
 		"String literals are produced only by Go-syntax quoting (%#v / %q), rune literals only by strconv.QuoteRune* / %q, byte literals only as byte(<numeric or quoted value>); the argument is the token's content, stored unmodified by the constructor, and nothing post-processes the quoted text before the single write.",
 		"that strconv quoting is the inverse of the Go scanner for every byte string")
 	prop("C13", []string{"P-NILGUARD", "P-RENDERITEMS", "P-STMTRENDER", "P-ISNULL", "P-GROUPRENDER"},
